@@ -23,6 +23,12 @@ def c12_jobs(tier):
                                           kind="valid" if level == 2 else "py", transform=tr))
                 for level in (0, 2):
                     jobs.append(J("h_fl:HFL", D=D, n_filled=n, cache=max(n, 1), level=level, op="add", record=True, kind="py"))
+        # first record into exactly the state the real __init__ builds (array aliasing / wrong initial counters show here)
+        for cache in (1, 2):
+            for level in (0, 1, 2):
+                for tr in (False, True):
+                    jobs.append(J("h_fl:HFL", D=D, n_filled=0, cache=cache, level=level, op="call", record=True,
+                                  kind="valid" if level == 2 else "py", transform=tr, fresh=True))
     return jobs
 
 
@@ -31,7 +37,7 @@ C12_LABELS = {"target_called_once", "func_count_plus_one", "add_leaves_func_coun
               "append_exact", "append_sd", "append_bookkeeping", "others_unchanged", "flags_unchanged", "returns_value", "unused_rows_stay_blank",
               "merge_only_with_sd", "merge_no_new_row", "merge_into_own_record", "merge_precision_weighted_mean",
               "merge_combined_sd", "merge_count", "merge_returns_merged_value", "merge_others_unchanged", "valid_value_accepted",
-              "target_gets_point", "target_gets_inverse_transformed_point"}
+              "target_gets_point", "target_gets_inverse_transformed_point", "returned_sd_is_reported_sd"}
 
 PROPS = {
     "C12": dict(
@@ -39,7 +45,7 @@ PROPS = {
         required=["append_exact", "others_unchanged", "merge_into_own_record", "merge_precision_weighted_mean",
                   "merge_others_unchanged", "norecord_data_unchanged", "func_count_plus_one", "arrays_same_length"],
         bounds=dict(quick="D<=2, <=3 logged rows, cache in {n, n+1} (growth forced), noise levels 0/1/2, record/no-record, "
-                          "call and add, with/without transformer stub",
+                          "call and add, with/without transformer stub; first record into exactly the state the real __init__ builds (cache 1 and 2)",
                     thorough="D<=3, <=4 logged rows, otherwise as quick"),
         outside=["floating-point rounding of the merged mean (real arithmetic model)", "fun_eval_time bookkeeping values",
                  "histories are covered by one inductive step from an arbitrary valid log, not by enumeration"],
@@ -96,6 +102,13 @@ def c08_jobs(tier):
         add(2, _pat(2, lb=["s", "-inf"], ub=["s", "s"]))
         add(2, _pat(2, lb=["-inf", "-inf"], ub=["+inf", "+inf"]))
         add(2, _pat(2, x0=None, lb=["s", "-inf"], ub=["s", "+inf"]))
+    # every per-coordinate combination of bounded / unbounded / bounded below only / bounded above only
+    sides = (("s", "s"), ("-inf", "+inf"), ("s", "+inf"), ("-inf", "s"))
+    for a in sides:
+        for b in sides:
+            add(2, _pat(2, lb=[a[0], b[0]], ub=[a[1], b[1]]))
+            if a != b and "s" in a and "s" in b and a != ("s", "s") and b != ("s", "s"):
+                add(2, _pat(2, x0=None, lb=[a[0], b[0]], ub=[a[1], b[1]]))
     add(2, _pat(2, x0=None))
     add(2, _pat(2, x0=["s", "nan"]))
     add(2, _pat(2, plb=None, pub=None))
@@ -155,6 +168,12 @@ def ps_jobs(tier, levels=(0, 1, 2), cons=False, fault=False, D2=True):
                             continue
                         jobs.append(J("h_ps:HPS", D=1, k0=k0, complete_poll=cp, accelerate=acc, level=lvl, budget_left=bl,
                                       cons="bool" if cons else None, fault=fault, M=0))
+    if 1 in levels:
+        # auto-detected noise: the logger was built for a deterministic target (level0=0), optim_state's level is 1
+        for k0 in k0s[:3]:
+            for cp in (False, True):
+                jobs.append(J("h_ps:HPS", D=1, k0=k0, complete_poll=cp, accelerate=True, level=1, level0=0, budget_left=10,
+                              cons="bool" if cons else None, fault=fault, M=0))
     jobs.append(J("h_ps:HPS", D=1, k0=-1, complete_poll=True, accelerate=True, level=0, budget_left=10, cons="bool" if cons else None, fault=fault, M=1))
     jobs.append(J("h_ps:HPS", D=1, k0=-1, complete_poll=True, accelerate=True, level=0, budget_left=10, cons="bool" if cons else None, fault=fault, M=0, iter=2))
     if D2:
@@ -177,6 +196,8 @@ def ss_jobs(tier, levels=(0, 1, 2), cons=False, fault=False):
         for lvl in levels:
             for k0 in ((-1,) if tier == "quick" else (0, -1, -4)):
                 jobs.append(J("h_ss:HSS", D=D, M=M, k0=k0, level=lvl, cons="bool" if cons else None, fault=fault, sc0=1))
+                if lvl == 1 and M == 1:
+                    jobs.append(J("h_ss:HSS", D=D, M=M, k0=k0, level=1, level0=0, cons="bool" if cons else None, fault=fault, sc0=1))
     return jobs
 
 
@@ -206,6 +227,12 @@ def cc_jobs(tier, cons_modes=(None, "bool", "real")):
                     continue
                 jobs.append(J("h_cc:HCC", N=N, D=D, M=M, proj=proj, cons=cons, k=-3 if (tier == "quick" or N * D > 3) else -19))
     jobs.append(J("h_cc:HCC", N=2, D=2, M=1, proj=True, cons=None, k=-3, inf=[1]))
+    # partly bounded problems: one coordinate unbounded / half-bounded next to a bounded one, both filter modes
+    for proj in (True, False):
+        jobs.append(J("h_cc:HCC", N=1, D=2, M=0, proj=proj, cons=None, k=-3, inf=[1]))
+        jobs.append(J("h_cc:HCC", N=1, D=2, M=0, proj=proj, cons=None, k=-3, inf=[0, 1], inf_keep_lo=[0], inf_keep_hi=[1]))
+        jobs.append(J("h_cc:HCC", N=2, D=1, M=0, proj=proj, cons=None, k=-3, inf=[0], inf_keep_lo=[0]))
+    jobs.append(J("h_cc:HCC", N=1, D=2, M=0, proj=False, cons=None, k=-3, inf=[0, 1]))
     jobs.append(J("h_cc:HCC", N=2, D=1, M=1, proj=True, cons=None, k=-19))
     return jobs
 
@@ -225,7 +252,8 @@ def vt_jobs(tier):
     if tier == "thorough":
         # (measured: affine D=3 fully symbolic does not finish in 400 s and a symbolic log-candidate next to an unbounded
         # coordinate ends with a solver 'unknown' -> both stay outside the claim)
-        for c in conc[:3]:
+        # (measured: the tight log box [1,1,10,10] next to a fully symbolic coordinate does not finish in 900 s -> outside)
+        for c in conc[:2]:
             jobs.append(J("h_vt:HVT", D=2, nonlinear=True, kinds=[["conc"] + c, "fin"], points=c[3] < 1e9))
         jobs.append(J("h_vt:HVT", D=2, nonlinear=True, kinds=["inf", "inf"]))
         jobs.append(J("h_vt:HVT", D=3, nonlinear=False, kinds=["fin", "inf", ["conc", -2.0, -1.0, 1.0, 3.0]]))
@@ -426,8 +454,10 @@ C05_TAIL = {"returned_point_is_recorded_iterate_with_lowest_quantile", "final_sa
             "ysd_vec_second_entry_is_sd_logged_at_returned_point", "no_final_samples_keeps_history_estimate", "exactly_the_reserved_final_samples",
             "history_re_evaluated_once", "result_target_type", "x_is_inverse_transform_of_final_u", "no_reselection_before_first_poll"}
 PROPS["C05"] = dict(
-    jobs=lambda tier: im_jobs(tier) + [j for j in tail_jobs(tier) if j["params"]["level"] > 0],
-    labels=C05_IM | C05_TAIL, required=sorted((C05_IM | C05_TAIL) - {"no_reselection_before_first_poll"}),
+    jobs=lambda tier: im_jobs(tier) + [j for j in tail_jobs(tier) if j["params"]["level"] > 0] +
+    [j for j in c12_jobs(tier) if j["params"]["level"] == 2 and j["params"]["op"] == "call" and j["params"]["D"] == 1 and not j["params"]["transform"]],
+    labels=C05_IM | C05_TAIL | {"returned_sd_is_reported_sd", "norecord_returns_value", "norecord_no_row"},
+    required=sorted((C05_IM | C05_TAIL | {"returned_sd_is_reported_sd"}) - {"no_reselection_before_first_poll"}),
     bounds=dict(quick="noise test and initial design: D=1 (and one D=2 job), configured noise level 0/1/2, budgets {100,4,3}, noise_final_samples {10,2,0}; tail: D<=2, <=4 recorded iterates, noise_final_samples 0..3",
                 thorough="D<=2 initial design, D<=3 tail, every (iterates, samples) pair up to 4 x 4"),
     outside=["the GP re-estimation of the recorded iterates (_re_evaluate_history_) is a stub", "statistical quality of the estimate"],
@@ -451,14 +481,39 @@ PROPS["C15"] = dict(
 C10_LABELS = {"target_called_once", "target_exception_propagates_same_type", "invalid_value_raises_ValueError", "failure_leaves_count",
               "failure_leaves_log", "valid_value_accepted", "func_count_plus_one", "fault_escapes_unchanged", "no_call_after_fault",
               "fault_escapes_loop_body", "func_count_counts_valid_calls_only"}
+FAULT_KINDS = ("exc", "value", "linalg", "arith", "lookup", "runtime", "type", "os", "assertion", "attr", "index")
+
+
+def with_fault_kinds(jobs, tier):
+    """the class the target's exception derives from is a job parameter: rotated over the fault-injecting jobs of every
+    harness family, and exhaustively for the first-call sites (initial design, logger)"""
+    out, i = [], {}
+    for j in jobs:
+        p = j["params"]
+        if not (p.get("fault") or p.get("kind") in ("raise", "raise_noargs")):
+            out.append(j)
+            continue
+        h = j["harness"]
+        full = (h == "h_im:HIM" and (p["B"], p["nfs"], p["D"]) == (100, 10, 1) and not p.get("noise_size")) or \
+               (h == "h_fl:HFL" and p["n_filled"] == 0 and p["D"] == 2 and (tier == "thorough" or p["kind"] == "raise")) or \
+               (tier == "thorough" and h in ("h_tail:HTAIL", "h_ss:HSS") and p["D"] == 1)
+        if full:
+            out.extend(J(h, **dict(p, fault_kind=k)) for k in FAULT_KINDS)
+        else:
+            k = i.get(h, 0)
+            i[h] = k + 1
+            out.append(J(h, **dict(p, fault_kind=FAULT_KINDS[k % len(FAULT_KINDS)])))
+    return out
+
+
 PROPS["C10"] = dict(
-    jobs=lambda tier: fl_kind_jobs(tier) + ps_jobs("quick", levels=(0, 2), fault=True, D2=False)[:: (1 if tier == "thorough" else 3)] +
+    jobs=lambda tier: with_fault_kinds(fl_kind_jobs(tier) + ps_jobs("quick", levels=(0, 2), fault=True, D2=False)[:: (1 if tier == "thorough" else 3)] +
     ss_jobs(tier, levels=(0, 2), fault=True) + [j for j in lb_jobs("quick", fault=True) if j["params"]["k0"] in (0, -1)] +
-    im_jobs(tier, fault=True) + [j for j in tail_jobs(tier, fault=True) if j["params"]["level"] > 0 and j["params"]["it"] > 0 and j["params"]["nfs"] > 0],
+    im_jobs(tier, fault=True) + [j for j in tail_jobs(tier, fault=True) if j["params"]["level"] > 0 and j["params"]["it"] > 0 and j["params"]["nfs"] > 0], tier),
     labels=C10_LABELS, required=sorted(C10_LABELS - {"fault_escapes_loop_body", "valid_value_accepted"}),
-    bounds=dict(quick="logger: every fault kind of the statement x noise level x record/no-record, D=2, 0 or 2 logged rows; fault position symbolic (a fork at every target call) in the initial design, poll step (D=1), search step (D<=2), loop body and final sampling",
+    bounds=dict(quick="logger: every fault kind of the statement x noise level x record/no-record, D=2, 0 or 2 logged rows; fault position symbolic (a fork at every target call) in the initial design, poll step (D=1), search step (D<=2), loop body and final sampling; the base class of the raised exception is a job parameter over 11 builtin families (Exception, ValueError, LinAlgError, FloatingPointError, KeyError, RuntimeError, TypeError, OSError, AssertionError, AttributeError, IndexError), rotated over the fault-injecting jobs and exhaustive at the first-call sites",
                 thorough="logger D in {1,2}; all poll-step configurations of C13 quick with fault injection"),
-    outside=["a complex value with zero imaginary part", "whole runs: the position k of the faulty call is covered per unit by induction over the loop"],
+    outside=["a complex value with zero imaginary part", "target exceptions that are BaseException but not Exception (KeyboardInterrupt, SystemExit) and user classes with custom metaclasses/__init__ signatures", "whole runs: the position k of the faulty call is covered per unit by induction over the loop"],
     time_limit=dict(quick=600, thorough=3600))
 
 # ------------------------------------------------------------------------------------------------ C01
@@ -563,6 +618,10 @@ def rf_jobs(tier):
             jobs.append(J("h_rf:HRobust", N=N, D=2, noise=noise, max_fail=mf))
         jobs.append(J("h_rf:HRobust", N=5, D=1, noise=noise, max_fail=2, symY=True))
         jobs.append(J("h_rf:HRobust", N=5, D=2, noise=noise, max_fail=3))      # the first local refit has few points
+        jobs.append(J("h_rf:HRobust", N=12, D=2, noise=noise, max_fail=3, slice=True))   # option use_slice_sampler
+        jobs.append(J("h_rf:HRobust", N=5, D=2, noise=noise, max_fail=3, slice=True))
+        jobs.append(J("h_rf:HRobust", N=5, D=2, noise=noise, max_fail=2, slice=True, symhyp=True))
+        jobs.append(J("h_rf:HRobust", N=12, D=2, noise=noise, max_fail=6, slice=True))
         jobs.append(J("h_rf:HRobust", N=5, D=1, noise=noise, max_fail=4, symY=True))
         if tier == "thorough":
             jobs.append(J("h_rf:HRobust", N=6, D=2, noise=noise, max_fail=2, symY=True))
@@ -576,7 +635,7 @@ C16_LABELS = {"linalg_failures_do_not_abort", "attempt_arguments_row_consistent"
               "training_set_is_logged_data"}
 PROPS["C16"] = dict(
     jobs=rf_jobs, labels=C16_LABELS, required=sorted(C16_LABELS), exc_is_violation=True,
-    bounds=dict(quick="robust refit: every schedule of up to 4 consecutive LinAlgErrors (one fresh Bool per attempt), 10-12 concrete training rows with and without a noise column, and 5 rows with symbolic values (drop decisions symbolic) for 2 failures; initial-training retry loop (AST cut): up to 6 failures; posterior update fallback of local_gp_fitting",
+    bounds=dict(quick="robust refit: every schedule of up to 4 consecutive LinAlgErrors (one fresh Bool per attempt), 10-12 concrete training rows with and without a noise column, and 5 rows with symbolic values (drop decisions symbolic) for 2 failures; initial-training retry loop (AST cut): up to 6 failures; posterior update fallback of local_gp_fitting; option use_slice_sampler with a sampler stub enforcing gpyreg's constructor checks, a symbolic noise hyper-parameter and symbolic noise bounds (2 failures) and 6 concrete failures; the GP stub enforces gpyreg's posterior contract (noise vector and training set of equal length, probed on the installed gpyreg) and a posterior computation may fail like a fit",
                 thorough="up to 9 consecutive failures (30 rows), symbolic values for D=2"),
     outside=["ten failures in a row (res unbound)", "'all other guarantees continue to hold for that run' only in the assume/guarantee sense: every other harness stubs GP calls with arbitrary outputs",
              "numerical behaviour of gpyreg itself"],
@@ -606,7 +665,7 @@ def opt_jobs(tier):
 C20_LABELS = {"user_value_takes_effect_exactly", "user_value_recorded_as_protected", "caller_dict_unchanged", "dependent_defaults_follow_user_value",
               "other_options_keep_documented_defaults", "later_instance_sees_its_own_defaults", "earlier_instance_unchanged_by_later_construction",
               "unknown_option_name_rejected", "caller_arrays_unchanged", "caller_options_unchanged", "constructor_leaves_argument_arrays_unchanged",
-              "caller_bound_arrays_not_written"}
+              "caller_bound_arrays_not_written", "defaults_independent_of_process_history", "user_instance_independent_of_process_history"}
 PROPS["C20"] = dict(
     jobs=opt_jobs, labels=C20_LABELS, required=sorted(C20_LABELS),
     bounds=dict(quick="every option name found in the two .ini files of the current tree, one symbolic override value each (non-zero real in [2^-20, 2^20]), dimensions (2, then a second instance with 3); 4 unknown names; constructor D<=2 for the caller-array clause",
@@ -617,17 +676,17 @@ PROPS["C20"] = dict(
 
 # ------------------------------------------------------------------------------------------------ C07 (narrow)
 C07_LABELS = {"seed_recorded", "seeded_before_first_draw", "reseeded_before_first_draw", "reseeded_before_first_target_call", "seeded_x0_draw_independent_of_prior_rng_state",
-              "rng_used_only_when_x0_missing"}
+              "rng_used_only_when_x0_missing", "defaults_independent_of_process_history", "user_instance_independent_of_process_history"}
 PROPS["C07"] = dict(
     jobs=lambda tier: [J("h_bc:HBC", D=D, pat=_pat(D, x0=x0), spell={}, nonlinear=False, seed="sym", twice=True) for D in ((1, 2) if tier == "thorough" else (1,)) for x0 in (None, ["s"] * D, ["nan"] * D)] +
     [J("h_bc:HBC", D=2, pat=_pat(2, x0=None, lb=["-inf", "-inf"], ub=["+inf", "+inf"]), spell={}, nonlinear=False, seed="sym", twice=True)] +
     [j for j in im_jobs(tier) if j["params"].get("seed")] + pm_jobs("quick")[:4] + es_jobs("quick", cons=(None,))[:1] +
-    [j for j in ps_jobs("quick", levels=(0,), D2=False)][:2],
+    [j for j in ps_jobs("quick", levels=(0,), D2=False)][:2] + [j for j in opt_jobs(tier) if j["harness"] == "h_opt:HOPT" and j["params"].get("name")],
     labels=C07_LABELS, required=sorted(C07_LABELS),
     bounds=dict(quick="seeding protocol: constructor with a symbolic seed in [0,2] (x0 given / absent / NaN, D<=2): the seed is installed before the first draw and recorded; 2-safety: the constructor executed twice from two different prior generator states (draws are variables named by (state, index)) yields the same starting point; _init_optimization_ re-seeds before its first draw; randomness discipline: in every harness the only randomness API available to pybads code is the stubbed global NumPy generator (any other API aborts the path and the check ends inconclusive)",
                 thorough="same"),
     outside=["bit-for-bit equality of whole runs", "everything inside gpyreg / SciPy (GP training starts, Sobol sequence)", "thread / BLAS nondeterminism", "the seed arithmetic of init_sobol (string manipulation)",
-             "module-level state of options.py (covered by C20's instance-independence obligations)"],
+             "histories longer than two earlier instances; histories that run optimize() between the constructions"],
     level_text="Narrow claim: the seeding protocol and the randomness discipline of pybads' own Python are decided symbolically; reproducibility of whole runs is not claimed.",
     time_limit=dict(quick=600, thorough=1800))
 
